@@ -243,6 +243,8 @@ func tryReplay(rd *runData, ob *Obligation, prop, dir, name string) *ReplayResul
 		return replayConfig(rd, u, ob, part, dir, name)
 	case u.rootKey == "CalculateBackoff" && strings.HasPrefix(ob.Family, "C17."):
 		return replayBackoff(rd, u, ob, part, dir, name)
+	case (u.rootKey == "IsPermanentError" || u.rootKey == "IsTransientError") && strings.HasPrefix(ob.Family, "C15."):
+		return replayClassifier(rd, u, ob, part, dir, name)
 	}
 	return nil
 }
@@ -433,4 +435,178 @@ func tail(s string, n int) string {
 		return s
 	}
 	return "..." + s[len(s)-n:]
+}
+
+// ---------------------------------------------------------------- C15: error classifier
+
+const classifierReplayTmpl = `package leader
+
+import (
+	"context"
+	"errors"
+	"fmt"
+	"strings"
+	"testing"
+
+	"github.com/nats-io/nats.go"
+)
+
+// govcErr realises an arbitrary combination of the observers the classifier can use.
+type govcErr struct {
+	msg     string
+	is      []error
+	timeout *TimeoutError
+}
+
+func (e *govcErr) Error() string { return e.msg }
+func (e *govcErr) Is(t error) bool {
+	for _, s := range e.is {
+		if s == t {
+			return true
+		}
+	}
+	return false
+}
+func (e *govcErr) As(target any) bool {
+	if p, ok := target.(**TimeoutError); ok && e.timeout != nil {
+		*p = e.timeout
+		return true
+	}
+	return false
+}
+
+var _ = nats.ErrTimeout
+var _ = fmt.Sprint
+
+// Generated by govc from the solver's counterexample to %s.
+func TestGovcReplay_Classifier(t *testing.T) {
+	var err error
+%s
+	perm, trans := IsPermanentError(err), IsTransientError(err)
+	if err == nil {
+		if perm || trans {
+			t.Fatalf("VIOLATION-REPRODUCED: nil classified permanent=%%v transient=%%v", perm, trans)
+		}
+		return
+	}
+	if perm == trans {
+		t.Fatalf("VIOLATION-REPRODUCED: %%T %%q classified permanent=%%v transient=%%v (must be exactly one)", err, err, perm, trans)
+	}
+	var te *TimeoutError
+	ctxClass := errors.Is(err, context.Canceled) || errors.Is(err, context.DeadlineExceeded)
+	toClass := errors.As(err, &te)
+	cfgClass := errors.Is(err, ErrInvalidConfig) || errors.Is(err, ErrPermissionDenied) || errors.Is(err, ErrBucketNotFound)
+	if (ctxClass || toClass) && perm {
+		t.Fatalf("VIOLATION-REPRODUCED: %%T %%q is a context/timeout error but classified permanent", err, err)
+	}
+	if !ctxClass && !toClass && cfgClass && !perm {
+		t.Fatalf("VIOLATION-REPRODUCED: %%T %%q is a configuration/permission/bucket error but classified transient", err, err)
+	}
+	low := strings.ToLower(err.Error())
+	conflict := errors.Is(err, nats.ErrKeyExists) || strings.Contains(low, "wrong last sequence")
+	if conflict && !ctxClass && !toClass && !perm {
+		t.Fatalf("VIOLATION-REPRODUCED: NATS revision conflict %%q classified transient", err)
+	}
+	for _, unreachable := range []error{nats.ErrTimeout, nats.ErrNoResponders, nats.ErrConnectionClosed} {
+		if err == unreachable && perm {
+			t.Fatalf("VIOLATION-REPRODUCED: %%q classified permanent", err)
+		}
+	}
+}
+`
+
+func replayClassifier(rd *runData, u *Unit, ob *Obligation, part oblPart, dir, name string) *ReplayResult {
+	errV, ok := u.entryParams["err"].(*Scalar)
+	if !ok {
+		return nil
+	}
+	e := errV.T
+	terms := map[string]Term{"nil": Eq(e, TZero), "isTimeoutType": Eq(App(SInt, "typeof", e), u.eng.typeIDName("*TimeoutError")),
+		"asTimeout": App(SBool, "ErrAs", e, u.eng.typeIDName("*TimeoutError"))}
+	sentinels := map[string]string{"context.Canceled": "context.Canceled", "context.DeadlineExceeded": "context.DeadlineExceeded",
+		"ErrInvalidConfig": "ErrInvalidConfig", "ErrPermissionDenied": "ErrPermissionDenied", "ErrBucketNotFound": "ErrBucketNotFound"}
+	for k := range sentinels {
+		if st, ok := u.sentinels[k]; ok {
+			terms["is:"+k] = App(SBool, "ErrIs", e, st)
+		}
+	}
+	low := App(SInt, "StrLower", App(SInt, "ErrMsg", e))
+	for _, p := range u.eng.cataloguePatterns {
+		terms["has:"+p] = App(SBool, "StrContains", low, u.eng.strID(p))
+	}
+	for i := range u.catTerms {
+		terms[fmt.Sprintf("cat:%d", i)] = Eq(e, u.catTerms[i])
+	}
+	if _, ok := u.eng.cs.UFuns["Permanent"]; ok {
+		terms["permanent"] = App(SBool, "Permanent", e)
+	}
+	vals := modelValues(u, part, terms, dir, name)
+	if vals == nil {
+		return &ReplayResult{Template: "classifier", Note: "could not read the model values"}
+	}
+	var b strings.Builder
+	cat := -1
+	for i := range u.catTerms {
+		if vals[fmt.Sprintf("cat:%d", i)] == "true" {
+			cat = i
+		}
+	}
+	catExpr := []string{"nats.ErrKeyExists", `fmt.Errorf("%w: %s", nats.ErrKeyExists, "key exists")`,
+		`&nats.APIError{Code: 400, ErrorCode: nats.JSErrCodeStreamWrongLastSequence, Description: "wrong last sequence: 1"}`,
+		`&nats.APIError{Code: 400, ErrorCode: nats.JSErrCodeStreamWrongLastSequence, Description: "wrong last sequence: 7"}`,
+		`&nats.APIError{Code: 400, ErrorCode: nats.JSErrCodeStreamWrongLastSequence, Description: "wrong last sequence: 18446744073709551615"}`,
+		"nats.ErrTimeout", "nats.ErrNoResponders", "nats.ErrConnectionClosed", "context.DeadlineExceeded"}
+	switch {
+	case vals["nil"] == "true":
+		b.WriteString("\terr = nil\n")
+	case cat >= 0 && cat < len(catExpr):
+		fmt.Fprintf(&b, "\terr = %s\n", catExpr[cat])
+	default:
+		var has []string
+		for _, p := range u.eng.cataloguePatterns {
+			if vals["has:"+p] == "true" {
+				has = append(has, p)
+			}
+		}
+		if vals["permanent"] == "true" {
+			// the callee's verdict is only known as Permanent(err): realise it with a permanent pattern
+			has = append(has, "permission denied")
+		}
+		msg := "x " + strings.Join(has, " | ") + " x"
+		var is []string
+		for k, expr := range sentinels {
+			if vals["is:"+k] == "true" {
+				is = append(is, expr)
+			}
+		}
+		sortStrings(is)
+		if vals["isTimeoutType"] == "true" {
+			fmt.Fprintf(&b, "\terr = &TimeoutError{Operation: %q}\n", msg)
+		} else {
+			to := "nil"
+			if vals["asTimeout"] == "true" {
+				to = `&TimeoutError{Operation: "wrapped"}`
+			}
+			fmt.Fprintf(&b, "\terr = &govcErr{msg: %q, is: []error{%s}, timeout: %s}\n", msg, strings.Join(is, ", "), to)
+		}
+	}
+	src := fmt.Sprintf(classifierReplayTmpl, ob.Name, b.String())
+	file := filepath.Join(dir, name+"_replay_test.go")
+	_ = os.WriteFile(file, []byte(src), 0o644)
+	out, failed, err := runOverlayTest(rd.eng.repo, file, "TestGovcReplay_Classifier", false, 90*time.Second)
+	rr := &ReplayResult{Template: "classifier", TestFile: file, TestName: "TestGovcReplay_Classifier", Values: vals, Output: tail(out, 3000), Confirmed: failed && strings.Contains(out, "VIOLATION-REPRODUCED")}
+	if err != nil {
+		rr.Note = err.Error()
+	}
+	return rr
+}
+
+func sortStrings(s []string) {
+	for i := range s {
+		for j := i + 1; j < len(s); j++ {
+			if s[j] < s[i] {
+				s[i], s[j] = s[j], s[i]
+			}
+		}
+	}
 }
